@@ -141,6 +141,13 @@ def run(prop, tier, seed, rep):
             inp["tag"] = "chain"
             if rng.random() < 0.5:
                 inp["prefix"] = rng.choice((1, 5, 14))
+        # a failure that is not transient: one read (script entry -1) or the n-th seek fails for good
+        if rng.random() < 0.1:
+            if rng.random() < 0.5:
+                inp["script"] = inp["script"][:rng.randrange(0, 12)] + [-1]
+            else:
+                inp["fail_seek"] = rng.randrange(1, 6)
+            inp["tag"] = "hard"
         inputs.append(inp)
     events = hx_reader(hx, inputs)
     # reference calls for drift detection (the same bytes, unscripted)
@@ -162,6 +169,7 @@ def run(prop, tier, seed, rep):
     if tier == "thorough":
         idx = next(i for i, e in enumerate(events) if e["outcome"] == "ok" and "crc" in e["out"])
         core.anti_vacuity(rep, "Trace_Reader", events[:idx + 10], [(idx, lambda e: (e["out"].update(crc=e["out"]["crc"] ^ 1), e)[1], "C19")], name="C19-selftest")
+    rep.extra["decodes_with_hard_failure"] = sum(1 for e in events if e["hard"] > 0)
     interrupted = sum(1 for e in events if any(c[0] == "r" and c[2] == -1 for c in e["calls"]))
     shortr = sum(1 for e in events if any(c[0] == "r" and 0 <= c[2] < c[1] for c in e["calls"]))
     rep.extra.update({"program_shapes": [n for n, _ in sh], "model_schedules_replayed": nsched, "random_schedules": len(events) - nsched,
